@@ -50,10 +50,55 @@ def check_restriction(run, E):
                 yield ck
 
 
+def check_select(run, E):
+    """fit_select: the returned index is argmax over ALL candidates i of mean(compare(candidate i [restricted to the selected
+    conditions], the training RDMs AS GIVEN, method, sigma_k)) -- the criterion of the property, with the caller's sigma_k and
+    the unpooled training data (the mean over training RDMs is the mean of compare's row)"""
+    E.schemas['ModelSelect'] = {'rdm_obj': 'obj:RDMs', 'n_rdm': 'int', 'n_param': 'int'}
+    for idx_case in ('given', 'none'):
+        ck = FuncCheck(E, run, 'C08', FIT + 'fit_select', f'pattern_idx={idx_case}')
+
+        def mk(E, idx_case=idx_case):
+            kw = dict(method=E.sym_val('method', tag='scalar'),
+                      pattern_idx=E.sym_val('pattern_idx', tag='ndarray') if idx_case == 'given' else None,
+                      pattern_descriptor=E.sym_val('pd', tag='scalar') if idx_case == 'given' else None,
+                      sigma_k=E.sym_val('sigma_k'))
+            m = E.sym_obj('model', 'ModelSelect')
+            return [m, E.sym_obj('data', 'RDMs')], kw, [E.getattr(m, 'n_rdm').z >= 1]
+
+        def post(ck, E, args, kw, p, idx_case=idx_case):
+            model, data = args
+            res = p.value
+            ok = isinstance(res, SV) and res.app is not None and res.app[0] == 'numpy.argmax' and isinstance(res.app[1][0], ArrV)
+            ck.ensure('post/returns-the-argmax-of-the-candidate-scores', z3.BoolVal(ok), structure=True,
+                      note=f'result: {res!r} app={getattr(res, "app", None) and res.app[0]}')
+            if not ok:
+                return
+            arr = res.app[1][0]
+            n = E.getattr(model, 'n_rdm').z
+            ck.ensure('post/one-score-per-candidate', arr.shape[0] == n if z3.is_expr(arr.shape[0]) else z3.BoolVal(False))
+            j = E.sym_int('j')
+            in_range = z3.And(j.z >= 0, j.z < n)
+            got = E.select(arr, (j.z,))
+            pred = E.call_method(model, 'predict_rdm', [j], {})
+            if idx_case == 'given':
+                pred = E.methods[('RDMs', 'subsample_pattern')](E, pred, kw['pattern_descriptor'], kw['pattern_idx'])
+            fvc = E.find_function('rsatoolbox.rdm.compare.compare')
+            bound = E.bind_args(fvc.node, [pred, data], dict(method=kw['method'], sigma_k=kw['sigma_k']), module=fvc.module)
+            cmp_ = E.app('rsatoolbox.rdm.compare.compare', [bound[q] for q in bound])
+            want = E.call_lib('numpy.mean', [cmp_], {})
+            ck.ensure('post/score-i-is-the-mean-similarity-of-candidate-i-to-the-training-rdms-with-the-callers-sigma_k',
+                      z3.Implies(in_range, E.veq(got, want)))
+        ck.execute(mk, post=post, allow_raise=lambda *a: None)
+        yield ck
+
+
 def run(run):
     E = new_engine(run)
     fails = []
     for ck in check_restriction(run, E):
+        fails += ck.failed
+    for ck in check_select(run, E):
         fails += ck.failed
     finish_engine(E, run)
     run.trust('optimality itself (BFGS / Brent / active-set convergence) is outside this family: decided by competitor search in the bounded tier')
